@@ -360,7 +360,7 @@ def inline_aliases(fn, interesting):
         for child in ast.iter_child_nodes(node):
             child._parent = node
     new._parent = getattr(fn, "_parent", None)
-    for a in ("_qualname", "_module", "_class"):
+    for a in ("_qualname", "_module", "_class", "_inlined"):
         if hasattr(fn, a):
             setattr(new, a, getattr(fn, a))
     return new
@@ -533,7 +533,7 @@ def rename_locals(fn, mapping):
         for child in ast.iter_child_nodes(node):
             child._parent = node
     new._parent = getattr(fn, "_parent", None)
-    for a in ("_qualname", "_module", "_class"):
+    for a in ("_qualname", "_module", "_class", "_inlined"):
         if hasattr(fn, a):
             setattr(new, a, getattr(fn, a))
     return new
@@ -651,7 +651,7 @@ def positive_ifs(fn):
         for child in ast.iter_child_nodes(node):
             child._parent = node
     new._parent = getattr(fn, "_parent", None)
-    for a in ("_qualname", "_module", "_class"):
+    for a in ("_qualname", "_module", "_class", "_inlined"):
         if hasattr(fn, a):
             setattr(new, a, getattr(fn, a))
     return new
@@ -720,7 +720,267 @@ def inline_trivial_helpers(fn, methods, recv="self"):
         for child in ast.iter_child_nodes(node):
             child._parent = node
     new._parent = getattr(fn, "_parent", None)
-    for a in ("_qualname", "_module", "_class"):
+    for a in ("_qualname", "_module", "_class", "_inlined"):
         if hasattr(fn, a):
             setattr(new, a, getattr(fn, a))
     return new
+
+
+# ----------------------------------------------------------------------------- interprocedural: private helpers
+
+
+def _simple_arg(a):
+    return isinstance(a, (ast.Name, ast.Constant)) or (isinstance(a, (ast.Attribute, ast.Subscript)) and _simple_arg(a.value) and (not isinstance(a, ast.Subscript) or _simple_arg(a.slice)))
+
+
+def _helper_shape(h):
+    """('expr', E) for `return E`; ('stmts', body, E|None) when the only return is the last statement; None otherwise"""
+    body = [s for s in h.body if not (isinstance(s, ast.Expr) and isinstance(s.value, ast.Constant))]
+    if not body:
+        return None
+    rets = [n for s in body for n in ast.walk(s) if isinstance(n, ast.Return)]
+    nested_defs = any(isinstance(n, FuncTypes + (ast.Lambda,)) for s in body for n in ast.walk(s))
+    if h.args.vararg or h.args.kwarg or any(isinstance(n, (ast.Yield, ast.YieldFrom)) for s in body for n in ast.walk(s)):
+        return None
+    if len(body) == 1 and isinstance(body[0], ast.Return) and body[0].value is not None:
+        return ("expr", body[0].value)
+    if nested_defs:
+        return None
+    if not rets:
+        return ("stmts", body, None)
+    if len(rets) == 1 and rets[0] is body[-1]:
+        return ("stmts", body[:-1], rets[0].value)
+    return None
+
+
+def inline_helpers(fn, resolve, depth=2):
+    """Copy of `fn` in which calls to *private helpers* are replaced by the helpers' bodies, so that moving a block or
+    an expression into a helper (or back) does not change what a rule sees.  `resolve(call)` returns
+    (FunctionDef, bound-receiver-expr-or-None) for a call to a helper of the same class / module, else None.
+    Handled shapes: a helper that is one `return <expr>` (inlined as an expression anywhere); a helper whose only
+    `return` is its last statement, called as a statement, as `x = helper(..)` or as `return helper(..)`.
+    Arguments that are not simple names / paths are bound to fresh locals first; the helper's own locals are
+    renamed apart."""
+    counter = [0]
+    inlined = set()
+
+    def bind(h, call, recv):
+        params = [a.arg for a in h.args.posonlyargs + h.args.args]
+        args = list(call.args)
+        if recv is not None:
+            args = [recv, *args]
+        if len(args) > len(params):
+            return None
+        sub, pre = {}, []
+        given = dict(zip(params, args))
+        for k in call.keywords:
+            if k.arg is None or k.arg not in params + [a.arg for a in h.args.kwonlyargs]:
+                return None
+            given[k.arg] = k.value
+        defaults = dict(zip(params[len(params) - len(h.args.defaults) :], h.args.defaults))
+        for a, d in zip(h.args.kwonlyargs, h.args.kw_defaults):
+            if d is not None:
+                defaults[a.arg] = d
+        for p in params + [a.arg for a in h.args.kwonlyargs]:
+            v = given.get(p, defaults.get(p))
+            if v is None:
+                return None
+            if _simple_arg(v):
+                sub[p] = v
+            else:
+                counter[0] += 1
+                tmp = f"{p}__arg{counter[0]}"
+                pre.append(ast.Assign(targets=[ast.Name(id=tmp, ctx=ast.Store())], value=clone(v), lineno=call.lineno, col_offset=0))
+                sub[p] = ast.Name(id=tmp, ctx=ast.Load())
+        inlined.add(h.name)
+        # helper locals renamed apart
+        counter[0] += 1
+        for loc in local_names(h):
+            if loc not in sub:
+                sub[loc] = ast.Name(id=f"{loc}__h{counter[0]}", ctx=ast.Load())
+        return sub, pre
+
+    def subst(node, sub):
+        class S(ast.NodeTransformer):
+            def visit_Name(self, x):
+                if x.id in sub:
+                    r = clone(sub[x.id])
+                    if isinstance(r, ast.Name):
+                        r.ctx = x.ctx
+                    return ast.copy_location(r, x)
+                return x
+
+        return S().visit(clone(node))
+
+    def at(node, like):
+        for n in ast.walk(node):
+            if isinstance(n, (ast.stmt, ast.expr)) and not hasattr(n, "lineno"):
+                n.lineno = getattr(like, "lineno", 0)
+                n.col_offset = getattr(like, "col_offset", 0)
+        return node
+
+    changed = [False]
+
+    def expand_block(stmts, level):
+        out = []
+        for st in stmts:
+            # recurse into compound statements first
+            for fld in ("body", "orelse", "finalbody"):
+                b = getattr(st, fld, None)
+                if isinstance(b, list) and b and isinstance(b[0], ast.stmt):
+                    setattr(st, fld, expand_block(b, level))
+            for hdl in getattr(st, "handlers", []) or []:
+                hdl.body = expand_block(hdl.body, level)
+            for cs in getattr(st, "cases", []) or []:
+                cs.body = expand_block(cs.body, level)
+            call = None
+            kind = None
+            if isinstance(st, ast.Expr) and isinstance(st.value, ast.Call):
+                call, kind = st.value, "stmt"
+            elif isinstance(st, ast.Assign) and isinstance(st.value, ast.Call) and len(st.targets) == 1:
+                call, kind = st.value, "assign"
+            elif isinstance(st, ast.Return) and isinstance(st.value, ast.Call):
+                call, kind = st.value, "return"
+            done = False
+            if call is not None:
+                r = resolve(call)
+                if r is not None:
+                    h, recv = r
+                    shape = _helper_shape(h)
+                    if shape is None and kind == "return":
+                        # `return helper(..)`: every return of the helper is a return of the caller
+                        hb = [s_ for s_ in h.body if not (isinstance(s_, ast.Expr) and isinstance(s_.value, ast.Constant))]
+                        if hb and not h.args.vararg and not h.args.kwarg and not any(isinstance(n_, FuncTypes + (ast.Lambda, ast.Yield, ast.YieldFrom)) for s_ in hb for n_ in ast.walk(s_)):
+                            b = bind(h, call, recv)
+                            if b is not None:
+                                sub, pre = b
+                                body = [at(subst(s_, sub), st) for s_ in hb]
+                                if level > 1:
+                                    body = expand_block(body, level - 1)
+                                out += [at(p_, st) for p_ in pre] + body
+                                changed[0] = True
+                                continue
+                    if shape is not None and shape[0] == "stmts" and (kind != "stmt" or True):
+                        b = bind(h, call, recv)
+                        if b is not None and not (kind == "stmt" and False):
+                            sub, pre = b
+                            body = [at(subst(s, sub), st) for s in shape[1]]
+                            if level > 1:
+                                body = expand_block(body, level - 1)
+                            tail = []
+                            if kind == "assign":
+                                if shape[2] is None:
+                                    tail = [ast.Assign(targets=st.targets, value=ast.Constant(value=None))]
+                                else:
+                                    tail = [ast.Assign(targets=st.targets, value=subst(shape[2], sub))]
+                            elif kind == "return":
+                                tail = [ast.Return(value=subst(shape[2], sub) if shape[2] is not None else None)]
+                            elif shape[2] is not None:
+                                tail = [ast.Expr(value=subst(shape[2], sub))]
+                            out += [at(p, st) for p in pre] + body + [ast.copy_location(at(t, st), st) for t in tail]
+                            changed[0] = True
+                            done = True
+            if not done:
+                out.append(st)
+        return out
+
+    class E(ast.NodeTransformer):
+        """expression helpers, anywhere"""
+
+        def visit_Call(self, n):
+            self.generic_visit(n)
+            r = resolve(n)
+            if r is None:
+                return n
+            h, recv = r
+            shape = _helper_shape(h)
+            if shape is None or shape[0] != "expr":
+                return n
+            b = bind(h, n, recv)
+            if b is None or b[1]:
+                return n  # would need statements: leave the call
+            changed[0] = True
+            return ast.copy_location(at(subst(shape[1], b[0]), n), n)
+
+    new = clone(fn)
+    for _ in range(depth):
+        before = changed[0]
+        changed[0] = False
+        new.body = expand_block(new.body, 1)
+        new = E().visit(new)
+        if not changed[0]:
+            changed[0] = before
+            break
+        changed[0] = True
+    if not changed[0]:
+        return fn
+    ast.fix_missing_locations(new)
+    for node in ast.walk(new):
+        for child in ast.iter_child_nodes(node):
+            child._parent = node
+    new._parent = getattr(fn, "_parent", None)
+    for a in ("_qualname", "_module", "_class", "_inlined"):
+        if hasattr(fn, a):
+            setattr(new, a, getattr(fn, a))
+    new._inlined = frozenset(inlined)  # names of the helpers whose bodies are now part of this function
+    return new
+
+
+def helper_resolver(tree, mod, cls=None, only_private=True, exclude=()):
+    """resolve(call) for inline_helpers: `self.m(..)` / `Cls.m(..)` / `cls.m(..)` to methods of `cls`, bare `f(..)` to
+    module-level functions of `mod` - private ones (leading underscore, not dunder) unless told otherwise."""
+    methods = methods_of(cls) if cls is not None else {}
+    cname = cls.name if cls is not None else None
+
+    def ok(name):
+        return name not in exclude and (not only_private or (name.startswith("_") and not name.startswith("__")))
+
+    def is_static(m):
+        return any(dotted(d) == "staticmethod" for d in m.decorator_list)
+
+    def resolve(call):
+        f = call.func
+        if isinstance(f, ast.Attribute) and isinstance(f.value, ast.Name) and f.attr in methods and ok(f.attr):
+            m = methods[f.attr]
+            if any(dotted(d) in ("property", "classmethod") for d in m.decorator_list):
+                return None
+            if f.value.id == "self" and not is_static(m):
+                return m, ast.Name(id="self", ctx=ast.Load())
+            if f.value.id in ("self", cname) and is_static(m):
+                return m, None
+            return None
+        if isinstance(f, ast.Name) and ok(f.id):
+            h = mod.functions.get(f.id)
+            if h is not None and isinstance(h, FuncTypes):
+                return h, None
+        return None
+
+    return resolve
+
+
+def value_arms(fn, subject):
+    """Arms of a dispatch on `subject` (source text), written as an if-chain (`subject == V`, `subject in (V, W)`) or
+    as match/case: {text of V: [statements that run only under that value]} for `return` / `raise` statements and
+    expression statements, found through the guard facts (so nesting and order do not matter)."""
+    from . import guards
+
+    out = {}
+    for st in walk_no_nested(fn):
+        if not isinstance(st, (ast.Return, ast.Raise, ast.Expr, ast.Assign)):
+            continue
+        for t, pol in guards.guards_of(st):
+            if not pol:
+                continue
+            vals = []
+            if isinstance(t, ast.Compare) and len(t.ops) == 1 and ast.unparse(t.left) == subject:
+                c = t.comparators[0]
+                if isinstance(t.ops[0], (ast.Eq, ast.Is)):
+                    vals = [c]
+                elif isinstance(t.ops[0], ast.In) and isinstance(c, (ast.Tuple, ast.List, ast.Set)):
+                    vals = list(c.elts)
+            elif isinstance(t, guards._MatchFact) and ast.unparse(t.subject) == subject:
+                pats = t.pattern.patterns if isinstance(t.pattern, ast.MatchOr) else [t.pattern]
+                vals = [p.value for p in pats if isinstance(p, ast.MatchValue)]
+            for v in vals:
+                out.setdefault(ast.unparse(v), []).append(st)
+    return out
